@@ -1,6 +1,80 @@
+/-
+Machine-checked witnesses for property C03 (wake-ups are never lost): the two defects found in the wake-up
+protocol, as concrete interleavings of the model (Compio.Model.Wake) that end in a state where a wake() call
+has RETURNED, its target was not polled since, the runtime thread is blocked in its wait, and no other
+thread is inside a call (nothing can ever unblock it).
+
+* F16 (repaired in /repo by b814cbc): `iour::Driver::flush` did not arm the notifier's poll; model switch
+  `flushArms := false` = `flushUnfixed`.
+* F030 (repaired in /repo by e1c512a): `Remote::schedule` did not wake the driver after a push that followed a
+  full-queue spin; model switch `rewake := false` = `scheduleUnfixed`.
+-/
 import Compio.Model.Wake
 
 namespace Compio.Cex.C03
 open Compio.Wake
+
+/-- no waker thread is inside a call -/
+def allIdle (s : State) : Bool := (List.range s.cfg.nw).all (fun w => (s.wk w).pc == .idle)
+
+/-- the runtime thread cannot move -/
+def rtStuck (s : State) : Bool := (rtStep s .go).isNone
+
+def check (r : Option State) (p : State → Bool) : Bool :=
+  match r with
+  | some s => p s
+  | none => false
+
+/-! ### F16: external loop, io_uring, `flush` before the fix -/
+
+def cfgF16 : Cfg := { drv := .iour, loop := .ext, q := 64, maxInt := 61, nw := 1, flushArms := false, rewake := true }
+
+/-- first iteration of compio-compat's loop on a fresh runtime (poll main, tick, flush, wait on the fd), then a
+thread invokes the waker of the main future: flag IDLE → NOTIFIED, eventfd written, but no poll is armed on it -/
+def traceF16 : List Event :=
+  [.rt .go, .rt .go, .rt .go, .rt .go,        -- mainStart, poll main, drainCheck (nothing pending), end of tick
+   .rt .go, .rt .go, .rt .go,                  -- flushUnfixed: (no arm), submit, reset -> idle; now waiting on the fd
+   .wStart 0 .main, .w 0, .w 0]                -- wake(): fetch_or, write(eventfd); returns
+
+theorem f16_flush_unfixed_counterexample :
+    check (run (init cfgF16) traceF16)
+      (fun s => s.mainWoken && (s.rt == .xwait) && rtStuck s && allIdle s && !fdReadable s && !s.zero) = true := by
+  decide
+
+/-- the same interleaving under the repaired `flush`: the descriptor is readable, the wait returns -/
+theorem f16_fixed_same_trace :
+    check (run (init { cfgF16 with flushArms := true }) traceF16)
+      (fun s => s.mainWoken && (s.rt == .xwait) && !rtStuck s && fdReadable s) = true := by
+  decide
+
+/-! ### F030: full sync queue, `Remote::schedule` before the fix -/
+
+def cfgF030 : Cfg := { drv := .iour, loop := .own, q := 1, maxInt := 61, nw := 2, flushArms := true, rewake := false }
+
+def traceF030 : List Event :=
+  [-- the runtime polls its main future, ticks (nothing to do) and goes to sleep in the kernel
+   .rt .go, .rt .go, .rt .go, .rt .go, .rt .go, .rt .go, .rt .go,
+   -- thread 0 wakes task 0: SCHEDULED, reserve, push (queue now full), wake the driver (eventfd), finish
+   .wStart 0 (.task 0), .w 0, .w 0, .w 0, .w 0, .w 0, .w 0, .w 0,
+   -- thread 1 wakes task 1: SCHEDULED, reserve, push fails (full) -> wakes the driver (already notified), spins
+   .wStart 1 (.task 1), .w 1, .w 1, .w 1, .w 1, .w 1, .w 1,
+   -- the runtime wakes up, polls main, drains task 0 out of the queue, starts polling it
+   .rt .go, .rt .go, .rt .go, .rt .go, .rt .go, .rt .go, .rt .go, .rt .go, .rt .go, .rt .go, .rt .go,
+   -- thread 1 finds room, pushes task 1 and, having "already notified", returns WITHOUT waking the driver
+   .w 1, .w 1, .w 1,
+   -- the runtime finishes the tick, resets the flag (not notified) and blocks
+   .rt .go, .rt .go, .rt .go, .rt .go, .rt .go]
+
+theorem f030_schedule_unfixed_counterexample :
+    check (run (init cfgF030) traceF030)
+      (fun s => s.woken 1 && s.sync.contains 1 && !s.dropped 1 && (s.rt == .wait) && rtStuck s && allIdle s) = true := by
+  decide
+
+/-- the same interleaving under the repaired `Remote::schedule` (one more step of thread 1: the wake-up after
+the push): the runtime thread is not stuck -/
+theorem f030_fixed_same_trace :
+    check (run (init { cfgF030 with rewake := true }) (traceF030 ++ [.w 1]))
+      (fun s => s.woken 1 && s.sync.contains 1 && (s.rt == .wait) && !rtStuck s && allIdle s) = true := by
+  decide
 
 end Compio.Cex.C03
